@@ -299,6 +299,33 @@ pub fn main(args: &Args) {
                 check_header_case(&mut r, b0, b1, false);
             }
         }
+        // (3b) 64-bit length claims that no sequence of bytes can satisfy (>= 2^63: not even allocatable), followed by a
+        // few bytes and EOF: a truncated frame like any other, so a read error
+        if shard == 0 {
+            for claim in [1u64 << 63, (1u64 << 63) + 1, u64::MAX - 1, u64::MAX] {
+                for masked in [false, true] {
+                    for tail in [0usize, 1, 7, 64] {
+                        let mut wire = vec![0x82u8, if masked { 0xff } else { 0x7f }];
+                        wire.extend_from_slice(&claim.to_be_bytes());
+                        if masked {
+                            wire.extend_from_slice(&[1, 2, 3, 4]);
+                        }
+                        wire.extend((0..tail).map(|i| i as u8));
+                        for plan in [Plan::Fill, Plan::Bytewise] {
+                            r.eval();
+                            r.count("unsatisfiable_length_claims", 1);
+                            let rep = vec!["c10".into(), "--claim".into(), claim.to_string()];
+                            let ex = J::obj(vec![("claimed_length", J::s(claim.to_string())), ("masked", J::Bool(masked)), ("bytes_after_header", J::u(tail as u64)), ("wire_hex", J::s(hex(&wire[..wire.len().min(24)])))]);
+                            match catch_unwind(AssertUnwindSafe(|| decode(ScriptedReader::new(&wire, plan.clone())))) {
+                                Ok(Err(WebsocketError::ReadError)) => r.count("truncated_read_error", 1),
+                                Ok(other) => r.violation("C10/truncated-not-read-error", format!("a frame claiming {} payload bytes followed by {} bytes and EOF gives {:?} instead of ReadError", claim, tail, other.map(|p| p.length)), ex, rep),
+                                Err(p) => r.violation("C10/truncated-not-read-error", format!("a frame claiming {} payload bytes followed by {} bytes and EOF makes the decoder panic: {}", claim, tail, panic_msg(&*p)), ex, rep),
+                            }
+                        }
+                    }
+                }
+            }
+        }
         // (4) Message::to_frame
         for len in LENGTHS.iter().chain([3usize, 17, 200, 70000].iter()) {
             if len % nsh != shard % nsh.min(3) && nsh > 1 && (len + shard) % nsh != 0 {
@@ -314,5 +341,5 @@ pub fn main(args: &Args) {
         r
     });
     let total = Report::merge_all(reports);
-    total.write(out, "all frames over FIN x RSV1-3 (8) x 6 opcodes x mask {off, key 0, key ff, random key} x payload lengths {0,1,124,125,126,127,128,65534,65535,65536,65537} with generated payloads: serialised bytes vs the reference RFC 6455 encoder, then decoded under every split point (<= 300 B) or 64 random split points (6 for >60 KB frames in quick) + whole + bytewise + 3 multi-split plans; random frames with lengths to 100 KiB (1 MiB thorough); all 256 x 256 two-byte headers with complete and one-byte-short remainders; Message::to_frame. distinct = distinct wire prefixes/header cases; all counted cases are non-trivial (each exercises header + length + mask logic)", Some(false), &["64-bit length claims far beyond the supplied bytes are C03's subject and not repeated here", "reference: hvcommon::wsref (RFC 6455 5.2 encoder/decoder written independently)"]);
+    total.write(out, "all frames over FIN x RSV1-3 (8) x 6 opcodes x mask {off, key 0, key ff, random key} x payload lengths {0,1,124,125,126,127,128,65534,65535,65536,65537} with generated payloads: serialised bytes vs the reference RFC 6455 encoder, then decoded under every split point (<= 300 B) or 64 random split points (6 for >60 KB frames in quick) + whole + bytewise + 3 multi-split plans; random frames with lengths to 100 KiB (1 MiB thorough); all 256 x 256 two-byte headers with complete and one-byte-short remainders; truncated frames claiming >= 2^63 payload bytes; Message::to_frame. distinct = distinct wire prefixes/header cases; all counted cases are non-trivial (each exercises header + length + mask logic)", Some(false), &["64-bit length claims beyond the supplied bytes but below 2^63 (which a decoder could try to allocate, aborting the harness process) are C03's subject, run there in isolated processes; claims >= 2^63 are checked here", "reference: hvcommon::wsref (RFC 6455 5.2 encoder/decoder written independently)"]);
 }
